@@ -78,6 +78,9 @@ type vfCred struct {
 func (m *vfModel) credsOf(ctx *vfReqCtx) []vfCred {
 	var out []vfCred
 	now := time.Now()
+	if !ctx.started.IsZero() {
+		now = ctx.started // the server looked at the credential when the request came in, not when the answer left
+	}
 	presented := []string{ctx.req.Cookies[authCookieName]}
 	for _, pc := range ctx.req.PreCookies {
 		if pc[0] == authCookieName {
@@ -102,7 +105,13 @@ func (m *vfModel) credsOf(ctx *vfReqCtx) []vfCred {
 			if a.Kind == "ipcert" && vfPeerInNets(ctx.req.Peer, a.Nets) {
 				p |= AuthTypeIPCertificate
 			}
-			out = append(out, vfCred{Kind: a.Kind, Subject: a.Subject, Proven: p, AuthAt: a.AuthAt, Valid: true})
+			at := a.AuthAt
+			if a.Kind == "ipcert" {
+				// an IP-restricted certificate is authenticated each time it is presented (handshake + netblock
+				// check): that moment, not the day the 45-day certificate was minted, starts the 24 hours
+				at = now
+			}
+			out = append(out, vfCred{Kind: a.Kind, Subject: a.Subject, Proven: p, AuthAt: at, Valid: true})
 		}
 	}
 	for _, pc := range ctx.pwChecks {
